@@ -49,7 +49,7 @@ def n_cases(tier, quick, thorough):
 
 # ------------------------------------------------------------------ bind.generate
 def gen_generate(rng, tier):
-    for _ in range(n_cases(tier, 60, 1500)):
+    for _ in range(n_cases(tier, 60, 600)):
         u, desc, ctx = new_universe(rng)
         for _ in range(6):
             try:
@@ -94,7 +94,7 @@ def documents(rng, tier, n_uni, per_uni, mutate=True):
 
 
 def gen_parse(rng, tier):
-    for u, ctx, desc, tree, kind in documents(rng, tier, n_cases(tier, 50, 1200), 4):
+    for u, ctx, desc, tree, kind in documents(rng, tier, n_cases(tier, 50, 500), 4):
         yield {"ctx": ctx, "tree": tree, "clazz": "Root", "config": rng.choice(CONFIGS), "desc": desc, "_uni": u.modname, "_kind": kind}
 
 
@@ -117,8 +117,23 @@ def classify_parse(a, o):
 
 
 # ------------------------------------------------------------------ end to end
+def corpus_roundtrip():
+    """recorded `bind.roundtrip` inputs (corpus/C01/roundtrip-*.json): shapes the random generator meets rarely"""
+    import glob
+    import os
+
+    root = os.path.join(os.path.dirname(os.path.dirname(os.path.abspath(__file__))), "corpus", "C01")
+    for path in sorted(glob.glob(os.path.join(root, "roundtrip-*.json"))):
+        a = json.load(open(path))
+        a.pop("_why", None)
+        u = B.Universe(a["desc"])
+        _UNIS[u.modname] = u
+        yield {**a, "ctx": u.export_ctx(), "_uni": u.modname}
+
+
 def gen_roundtrip(rng, tier):
-    for _ in range(n_cases(tier, 50, 1200)):
+    yield from corpus_roundtrip()
+    for _ in range(n_cases(tier, 50, 500)):
         u, desc, ctx = new_universe(rng)
         for _ in range(4):
             try:
@@ -144,6 +159,44 @@ def impl_roundtrip(a):
     except Exception as e:  # noqa: BLE001
         return B.classify_exc(e)
     return G.real_parse_bytes(u, a["clazz"], xml.encode(), handler=a["handler"], config=a["config"])
+
+
+_GEN_PREFIX = __import__("re").compile(r"^(q|ns)(\d+):(.*)$", __import__("re").S)
+
+
+def _same_up_to_prefixes(m, i, ren):
+    """structural equality of two values where a string leaf `q<k>:rest` of the model may stand for
+    `ns<j>:rest` of the code, under one injective renaming `ren` of the generated prefixes"""
+    if isinstance(m, str) and isinstance(i, str):
+        if m == i:
+            return True
+        mm, im = _GEN_PREFIX.match(m), _GEN_PREFIX.match(i)
+        if not (mm and im and mm.group(1) == "q" and im.group(1) == "ns" and mm.group(3) == im.group(3)):
+            return False
+        k, j = mm.group(2), im.group(2)
+        if ren.setdefault(k, j) != j or [x for x, y in ren.items() if y == j] != [k]:
+            return False
+        return True
+    if isinstance(m, dict) and isinstance(i, dict):
+        return m.keys() == i.keys() and all(_same_up_to_prefixes(m[k], i[k], ren) for k in m)
+    if isinstance(m, list) and isinstance(i, list):
+        return len(m) == len(i) and all(_same_up_to_prefixes(x, y, ren) for x, y in zip(m, i))
+    return m == i
+
+
+def cmp_roundtrip(mo, io, a):
+    """The abstract writer of the model names the prefixes of QName-valued content `q0, q1, …`, the real
+    writers `ns0, ns1, …` (prefix allocation is the writer layer, C03).  QName-typed values are resolved
+    again by the parser, but where such an element is read back as *generic* content (an AnyElement or a
+    str under a wildcard) the raw text keeps the prefix: the two results are then compared up to one
+    injective renaming of the generated prefixes, and exactly otherwise."""
+    if unsupported(mo):
+        return True
+    if mo == io:
+        return True
+    if "ok" in mo and "ok" in io:
+        return _same_up_to_prefixes(mo["ok"], io["ok"], {})
+    return False
 
 
 def classify_rt(a, o):
